@@ -428,15 +428,20 @@ def seq(a1: int, a2: int, a3: int, a4: int) -> bool:
                 acts.append(c)
                 break
     reach()
-    P_.sample({"driver": SEL.get("drv", "h5"), "actions": [list(ACTIONS[a]) for a in acts]})
-    return P_.native_call("vt.harness.cont", "run_seq_idx", SEL.get("drv", "h5"), acts)
+    P_.sample({"driver": SEL.get("drv", "h5"), "init": SEL.get("init", 0), "actions": [list(ACTIONS[a]) for a in acts]})
+    return P_.native_call("vt.harness.cont", "run_seq_idx", SEL.get("drv", "h5"), acts, SEL.get("init", 0))
 
 
-def run_seq_idx(drvname, idx):
-    return run_seq(drvname, [ACTIONS[a] for a in idx])
+def run_seq_idx(drvname, idx, init=0):
+    return run_seq(drvname, [ACTIONS[a] for a in idx], init)
 
 
-def run_seq(drvname, actions):
+INIT_META = [("set", "d", "F"), ("set", "g", "D"), ("set", "g/e", "I"), ("set", "g/e", "F")]
+
+
+def run_seq(drvname, actions, init=0):
+    """init=1: the sequence starts from a container that already carries metadata of three schemas
+    (incl. a parent/child pair on one node), written in an earlier session (closed and reopened)."""
     INST.reset()
     _cnt[0] = 0
     drv = DRIVERS[drvname]()
@@ -447,6 +452,13 @@ def run_seq(drvname, actions):
     mc["g/e"] = 2
     md.tree.update({"d": "d", "g": "g", "g/e": "d"})
     md.val.update({"d": 1, "g/e": 2})
+    if init:
+        for act in INIT_META:
+            mc, prob = do_action(mc, md, drv, act)
+            if prob is not None:
+                note(("initial state", act, prob))
+                return False
+        mc = drv.reopen(mc)
     r = check_all(mc, md)
     if r is not None:
         note(("initial state", r))
